@@ -337,6 +337,14 @@ func CheckChangesScope(opts migrate.PlanOptions, changes []schema.Change) error 
 			t = c.T
 		case *schema.DropTable:
 			t = c.T
+		case *schema.RenameTable:
+			// Both ends of the rename should reside in the scoped schema.
+			for _, t := range []*schema.Table{c.From, c.To} {
+				if t != nil && t.Schema != nil && t.Schema.Name != "" {
+					names[t.Schema.Name] = struct{}{}
+				}
+			}
+			continue
 		default:
 			continue
 		}
